@@ -135,6 +135,10 @@ def sim_unlock(self):
         a = W.k.current
         W.k.log("flock-dropped-under-holder", path=W.rel(p), by=a.kind if a else None)
         W.k.count("probe:lock-dropped-under-another-holder")
+        W.k.count("probe:lock-dropped-under-another-holder:%s" % ("token.lock" if str(p).endswith("token.lock") else "job-or-experiment lock"))
+        # directed fault: right after this rare condition the process that lost its lock is a slow
+        # one for a drawn number of steps (the others get to use the window)
+        W.k.stall_after_rare(pid)
 
 
 def sim_ipl_init(self, path, *a, **kw):
@@ -370,6 +374,12 @@ class SimPsutil:
         def wait(self, timeout=None):
             p = self._p
             W.k.wait_until(lambda: p.code is not None)
+            # psutil waits for a process that is not a child by polling (interval up to 40 ms):
+            # the caller learns about the exit late, by a kernel-chosen amount
+            late = (0, 0, 4, 16, 40)[W.k.choose(5, "poll-late")]
+            if late:
+                W.k.count("fault:late-wakeup-foreign-process-wait")
+                W.k.sleep(late * 0.001)
             return None
 
         def __repr__(self):
